@@ -4,6 +4,7 @@ import (
 	"fmt"
 	"go/token"
 	"go/types"
+	"os"
 	"strings"
 
 	"golang.org/x/tools/go/ssa"
@@ -16,6 +17,18 @@ type guard struct {
 	tagOf  map[string]string // type name (lang) -> ObjectType tag its Type() returns
 	typeOf map[string]string // tag -> type name
 	depth  int
+	env    func(ssa.Value) (int64, bool) // constants bound in the calling context under analysis (closure free variables)
+}
+
+// constIntEnv: a constant, or a value the calling context under analysis binds to one.
+func (g *guard) constIntEnv(v ssa.Value) (int64, bool) {
+	if c, ok := constInt(v); ok {
+		return c, true
+	}
+	if g.env != nil {
+		return g.env(strip(v))
+	}
+	return 0, false
 }
 
 func (e *Engine) newGuard() *guard {
@@ -463,7 +476,7 @@ func (g *guard) lenLowerBound(x ssa.Value, b *ssa.BasicBlock, depth int) int64 {
 		if !isLen || !sameSlice(s, x) {
 			continue
 		}
-		c, isC := constInt(r)
+		c, isC := g.constIntEnv(r)
 		if !isC {
 			continue
 		}
@@ -498,10 +511,21 @@ func (g *guard) lenLowerBound(x ssa.Value, b *ssa.BasicBlock, depth int) int64 {
 			if len(callers) > 0 && idx >= 0 {
 				min := int64(-1)
 				for _, c := range callers {
-					if c.Common().StaticCallee() == nil {
-						return 0
-					}
 					args := c.Common().Args
+					if c.Common().StaticCallee() == nil {
+						// called through a closure's free variable: fn was composed into the closure by a function-building
+						// helper; the guard of the closure may compare with another value bound at the same site
+						ks, ok := g.lenThroughClosure(fn, c, idx, depth)
+						if !ok {
+							return 0
+						}
+						for _, k := range ks {
+							if min < 0 || k < min {
+								min = k
+							}
+						}
+						continue
+					}
 					if idx >= len(args) {
 						return 0
 					}
@@ -517,6 +541,123 @@ func (g *guard) lenLowerBound(x ssa.Value, b *ssa.BasicBlock, depth int) int64 {
 		}
 	}
 	return lb
+}
+
+// lenThroughClosure: fn is called as `fv(args…)` inside a closure cf, fv a free variable of cf. For every site that builds
+// cf with fn bound to fv (through a parameter of the building helper m, at a static call of m), the lower bound of the
+// length of argument idx at the call, with cf's free variables resolved to the constants bound at that site.
+func (g *guard) lenThroughClosure(fn *ssa.Function, c ssa.CallInstruction, idx int, depth int) ([]int64, bool) {
+	fv, ok := freeVarOf(c.Common().Value)
+	cf := c.Parent()
+	if os.Getenv("MINICHECK_TRACE") != "" {
+		fmt.Println("TRACE lenThroughClosure", fn.Name(), cf.Name(), ok, c.Common().Value)
+	}
+	if !ok || cf.Parent() == nil || idx >= len(c.Common().Args) {
+		return nil, false
+	}
+	m := cf.Parent()
+	bi := -1
+	for i, v := range cf.FreeVars {
+		if v == fv {
+			bi = i
+		}
+	}
+	var out []int64
+	found := false
+	okAll := true
+	instrs(m, func(in ssa.Instruction) {
+		mc, isMC := in.(*ssa.MakeClosure)
+		if !isMC || mc.Fn != ssa.Value(cf) || bi < 0 {
+			return
+		}
+		paramIdx := func(v ssa.Value) int {
+			p, isP := strip(bindingValue(v)).(*ssa.Parameter)
+			if !isP {
+				return -1
+			}
+			for i, q := range m.Params {
+				if q == p {
+					return i
+				}
+			}
+			return -1
+		}
+		pi := paramIdx(mc.Bindings[bi])
+		if pi < 0 {
+			okAll = false
+			return
+		}
+		for _, mcall := range g.e.callersOf(m) {
+			if mcall.Common().StaticCallee() != m || pi >= len(mcall.Common().Args) {
+				if os.Getenv("MINICHECK_TRACE") != "" {
+					fmt.Println("TRACE lenThroughClosure nonstatic", mcall, mcall.Parent().Name(), pi, len(mcall.Common().Args))
+				}
+				okAll = false
+				continue
+			}
+			binds := false
+			for _, f := range g.e.closuresOf(mcall.Common().Args[pi], nil, 0) {
+				if f == fn {
+					binds = true
+				}
+			}
+			if !binds {
+				continue
+			}
+			found = true
+			margs := mcall.Common().Args
+			saved := g.env
+			g.env = func(v ssa.Value) (int64, bool) {
+				if x, isFV := freeVarOf(v); isFV {
+					for i, q := range cf.FreeVars {
+						if q == x {
+							if j := paramIdx(mc.Bindings[i]); j >= 0 && j < len(margs) {
+								return constInt(margs[j])
+							}
+						}
+					}
+				}
+				return 0, false
+			}
+			out = append(out, g.lenLowerBound(c.Common().Args[idx], c.(ssa.Instruction).Block(), depth+1))
+			g.env = saved
+		}
+	})
+	if os.Getenv("MINICHECK_TRACE") != "" {
+		fmt.Println("TRACE lenThroughClosure result", fn.Name(), out, found, okAll, bi)
+	}
+	return out, found && okAll
+}
+
+// bindingValue: the value a closure binding stands for. go/ssa captures variables by reference: a captured parameter is
+// spilled to a cell (Alloc) and the cell is bound; with a single store into the cell, the binding is that stored value.
+func bindingValue(b ssa.Value) ssa.Value {
+	al, ok := strip(b).(*ssa.Alloc)
+	if !ok {
+		return b
+	}
+	var stored ssa.Value
+	n := 0
+	for _, r := range refsOf(al) {
+		if st, isSt := r.(*ssa.Store); isSt && st.Addr == ssa.Value(al) {
+			stored = st.Val
+			n++
+		}
+	}
+	if n == 1 {
+		return stored
+	}
+	return b
+}
+
+// freeVarOf: v is a free variable of a closure or a load through one (captured by reference).
+func freeVarOf(v ssa.Value) (*ssa.FreeVar, bool) {
+	v = strip(v)
+	if u, ok := v.(*ssa.UnOp); ok && u.Op == token.MUL {
+		v = strip(u.X)
+	}
+	fv, ok := v.(*ssa.FreeVar)
+	return fv, ok
 }
 
 func flipOp(op token.Token) token.Token {
